@@ -60,11 +60,11 @@ theorem hasType_mono {Γ Γ' : Env} (hx : Extends Γ Γ') : ∀ (e : IExpr) (τ 
     | op ha hr => exact .op (hasArgs_mono hx args _ ha) hr
   | .swizzle e slots, _, h => by
     cases h with
-    | swizzleS he hl hn hb => exact .swizzleS (hasType_mono hx e _ he) hl hn hb
-    | swizzleV he hl hn hb => exact .swizzleV (hasType_mono hx e _ he) hl hn hb
+    | swizzleS he hl hn h4 hb => exact .swizzleS (hasType_mono hx e _ he) hl hn h4 hb
+    | swizzleV he hl hn h4 hb => exact .swizzleV (hasType_mono hx e _ he) hl hn h4 hb
   | .mswizzle e slots, _, h => by
     cases h with
-    | mswizzle he hl hn hb => exact .mswizzle (hasType_mono hx e _ he) hl hn hb
+    | mswizzle he hl hn h4 hb => exact .mswizzle (hasType_mono hx e _ he) hl hn h4 hb
   | .index a i, _, h => by
     cases h with
     | indexV ha hi hl => exact .indexV (hasType_mono hx a _ ha) (hasType_mono hx i _ hi) hl
